@@ -217,8 +217,8 @@ Definition parse_kind (kind a1 a2 a3 scopes : bytes) (default_redirect : option 
       else if is_kw "revoke" kind then
         match untok_bytes a1, untok_opt a3 with
         | Some t, Some h =>
-            if is_kw "A" a2 || is_kw "AF" a2 || is_kw "AFR" a2 then Some (KRevoke t (Some (s2b "access_token")))
-            else if is_kw "R" a2 || is_kw "RF" a2 || is_kw "RFR" a2 then Some (KRevoke t (Some (s2b "refresh_token")))
+            if is_kw "A" a2 || is_kw "AF" a2 || is_kw "AFR" a2 || is_kw "AS" a2 then Some (KRevoke t (Some (s2b "access_token")))
+            else if is_kw "R" a2 || is_kw "RF" a2 || is_kw "RFR" a2 || is_kw "RS" a2 then Some (KRevoke t (Some (s2b "refresh_token")))
             else if is_kw "C" a2 then Some (KRevoke t h)
             else None
         | _, _ => None
